@@ -618,6 +618,12 @@ def rule_r8(ctx) -> List[R.Inst]:
     return insts
 
 
+def rule_dep(ctx):
+    """obligations inherited from shared code reached through the call graph (sa/props/deps.py)"""
+    from .deps import dep_insts
+    return dep_insts(ctx, "C08", __import__("sa.props.common", fromlist=["x"]).converter_entries(ctx.M), skip_groups=())
+
+
 SPECS = [
     RuleSpec("C08.R1", rule_r1, 50, "A1", "per-converter column mapping tables"),
     RuleSpec("C08.R2", rule_r2, 120, "M0", "every attribute store on a target chart/mapset hits a declared list or field"),
@@ -627,6 +633,7 @@ SPECS = [
     RuleSpec("C08.R6", rule_r6, 17, "A3", "source untouched"),
     RuleSpec("C08.R7", rule_r7, 35, "A2", "empty()/cast() results have exactly the declared fields, no undefined cells"),
     RuleSpec("C08.R8", rule_r8, 1, "A4", "label-agnostic copy in cast()"),
+    RuleSpec("C08.D", rule_dep, 1, "M0", "rules of the shared code (timing engine, list classes, stacker) that the operations of this property reach"),
 ]
 
 META = dict(
